@@ -405,6 +405,17 @@ func isClosed(ch interface{}) bool {
 	return x.closed[chKey(ch)]
 }
 
+// MarkClosed tells the scheduler that ch was closed natively (e.g. by a
+// virtual timer callback, which runs inside the scheduler).
+func MarkClosed[T any](ch chan T) {
+	if x := active; x != nil {
+		if x.closed == nil {
+			x.closed = map[uintptr]bool{}
+		}
+		x.closed[chKey(ch)] = true
+	}
+}
+
 func Close[T any](ch chan T) {
 	if active == nil {
 		close(ch)
